@@ -80,6 +80,9 @@ def pack_attrs(a, do_spacing=False):
         new_attrs['spacing']=list(get_spacing(a))
 
     for attr, val in a.attrs.items():
+        if isinstance(val, xr.DataArray) and val.ndim == 0:
+            # a dimensionless array has no coords to restore it from
+            val = val.item()
         if isinstance(val, xr.DataArray):
             new_attrs[attr_coords][attr] = {}
             for dim in val.dims:
